@@ -2,6 +2,7 @@ import WM.Proto
 import WM.Model.MatcherTree
 import WM.Model.MatcherCombo
 import WM.Model.MatcherScoring
+import WM.Model.MatcherReads
 /-!
 Protocol handler of family `c11` (also used by `c12`): builds a matcher tree from an S-expression,
 runs a program of matcher operations on it and prints what the harness observes on the real
@@ -10,6 +11,8 @@ matcher after every operation.
   c11 run  TREE (OP ...)   -> (OBS OBS ...)     one OBS after construction, one after every OP
   c11 den  TREE            -> ((id score) ...)  the meaning of the freshly built tree (Layer S)
   c11 bm25 idf tf fl avgfl B K1 -> score
+  c11 reads TREE (OP ...)  -> (RD RD ...)      OP next/(skip t)/reset; RD ::= (id weight nterms) | (0) | (!Error)
+  c11 denr TREE            -> (((id weight)..) ((id nterms)..))   Layer S lists of the reads of the fresh tree
 
 TREE ::= (null) | (list (id..) (w..) scorer01) | (leaf SC tmw tml (blk maxid maxw minlen (id w len)..)..)
        | (union T T) | (dismax T T) | (inter T T) | (andnot T T) | (andmaybe T T) | (require T T)
@@ -294,7 +297,32 @@ def runRoot (tree : SExp) (prog : List Op) : Option (List String) :=
     | some (.error e) => some [s!"(!{errName e})"]
     | none => none
 
+/-- `weight()` and the number of `matching_terms()` on the current entry -/
+def observeReads (m : Any) : String :=
+  if !(ops m.1).isActive m.2 then "(0)" else
+  s!"({showR toString ((ops m.1).id m.2)} {showR showRat (read .weight m.1 m.2)} {showR showRat (read .terms m.1 m.2)})"
+
+def runReads (m : Any) (prog : List Op) : List String :=
+  let rec go (m : Any) (ops : List Op) (acc : List String) : List String :=
+    match ops with
+    | [] => acc.reverse
+    | op :: rest =>
+      match applyOp anyIface m [] op with
+      | .error e => (s!"(!{errName e})" :: acc).reverse
+      | .ok (m', _) => go m' rest (observeReads m' :: acc)
+  go m prog [observeReads m]
+
 def handle : List SExp → String
+  | [.atom "reads", tree, .list prog] =>
+    match prog.mapM parseOp, parseTree tree with
+    | some prog, some (.ok m) => "(" ++ " ".intercalate (runReads m prog) ++ ")"
+    | some _, some (.error e) => s!"((!{errName e}))"
+    | _, _ => "bad-op"
+  | [.atom "denr", tree] =>
+    match parseTree tree with
+    | some (.ok m) => s!"({showDen (denR .weight m.1 m.2)} {showDen (denR .terms m.1 m.2)})"
+    | some (.error e) => s!"!{errName e}"
+    | none => "bad-op"
   | [.atom "run", tree, .list prog] =>
     match prog.mapM parseOp with
     | some prog =>
